@@ -21,6 +21,7 @@ import (
 const repoName = "remote"
 
 type World struct {
+	RawBig  bool     // ordinary content is written longer than 1024 bytes
 	FileRemote bool // origin is a file:// URL and there is no LFS server
 	Linked  string   // directory of the linked worktree, if one was added
 	cleanup []func() // run by Close (scratch outside the world's root)
@@ -43,6 +44,7 @@ type World struct {
 
 // WorldOpts are concretisation-only dimensions: the spec says the answer does not depend on them.
 type WorldOpts struct {
+	RawBig     bool
 	FileRemote bool
 	Attr        string   // attributes for *.bin, e.g. "filter=lfs diff=lfs merge=lfs -text"
 	Ambient     []string // "section.key=value" entries added to the user's global git config
@@ -70,7 +72,15 @@ func (w *World) Abstract(hex string) string {
 func (w *World) PointerText(o string) string {
 	return fmt.Sprintf("version https://git-lfs.github.com/spec/v1\noid sha256:%s\nsize %d\n", w.Hex(o), len(w.Content(o)))
 }
-func (w *World) RawContent(p string) []byte { return []byte("plain git content of " + p + "\n") }
+// RawContent is ordinary Git content committed at path p; with RawBig it is longer than the 1024-byte
+// pointer cutoff (the size of ordinary content is never an argument of a specification).
+func (w *World) RawContent(p string) []byte {
+	s := "plain git content of " + p + "\n"
+	if w.RawBig {
+		return []byte(strings.Repeat(s, 1500/len(s)+1))
+	}
+	return []byte(s)
+}
 func PathFile(p string) string              { return p + ".bin" }
 
 func (w *World) logf(format string, a ...interface{}) {
@@ -120,6 +130,7 @@ func NewWorldOpts(root, binDir string, seed int64, o WorldOpts) (*World, error) 
 		return nil, fmt.Errorf("remote config: %s", r.All())
 	}
 	w.FileRemote = o.FileRemote
+	w.RawBig = o.RawBig
 	for _, args := range [][]string{
 		{"remote", "add", "origin", w.RemoteURL()},
 		{"config", "lfs.url", srv.LFSURL(repoName, "")},
